@@ -20,8 +20,10 @@ def load_table():
         pf = os.path.join(bdir, name, "patch.diff")
         if os.path.exists(pf):
             touched = [l[6:].strip() for l in open(pf) if l.startswith("+++ b/")]
+            lim = os.path.join(bdir, name, "KNOWN_LIMIT")
             table.append({"prop": "*", "kind": "benign", "name": "refactoring:" + name, "rule": None, "patch": pf,
-                          "file": touched[0] if touched else "src/"})
+                          "file": touched[0] if touched else "src/",
+                          "known_limit": open(lim).read().strip() if os.path.exists(lim) else None})
     return table
 
 
@@ -104,6 +106,11 @@ def run(ctx, prop, src=None):
             else:
                 ctx.instances.append({"rule": "MUTANT", "fn": "mutation smoke", "instance": "%s NOT flagged by %s (fired: %s)" % (name, mt["rule"], rules), "where": mt["file"], "verdict": "checker weakness (information)"})
         else:
+            if mt.get("known_limit") and rules:
+                # a documented false alarm of a template rule: reported as information, not counted as a self-test failure
+                res.setdefault("known_limits", []).append({"name": name, "rules_fired": rules, "why": mt["known_limit"][:300]})
+                ctx.instances.append({"rule": "BENIGN", "fn": "mutation smoke", "instance": "%s raised %s (documented limit)" % (name, rules), "where": mt["file"], "verdict": "documented template limit (information)"})
+                continue
             res["benign_applied"] += 1
             if not rules:
                 res["benign_silent"] += 1
